@@ -1,19 +1,319 @@
-//! C02 (stub, to be filled in)
+//! C02 - compound-command header paths resolve to exactly the SCPI-designated handler.
+//! World: random trees x message histories (1-3 controllers); the real dispatcher's
+//! handler-invocation log is compared unit by unit with a resolver written from the statement.
+
+use crate::exec::{SendObs, World};
+use crate::gen::*;
+use crate::model::*;
+use crate::props::structural::*;
 use crate::props::*;
+use crate::rng::{mix, Rng};
 use crate::runner::{Finding, Prop, Tier};
 use crate::stats::Stats;
+use crate::tree::{gen_tree, resolve_ex, Resolved};
 use crate::types::*;
 
 pub struct C02;
 
 impl Prop for C02 {
-    fn id(&self) -> &'static str { "C02" }
-    fn level(&self) -> &'static str { "exploration" }
-    fn rule(&self) -> &'static str { "" }
-    fn assumptions(&self) -> Vec<String> { vec![] }
-    fn runs(&self, _tier: Tier) -> u64 { 0 }
-    fn gen(&self, seed: u64, run: u64, _tier: Tier) -> Trace {
-        base_trace("C02", seed, run, "", Config { queue: QueueCfg::Vec, controllers: 1, tree: TreeDesc::default() })
+    fn id(&self) -> &'static str {
+        "C02"
     }
-    fn check(&self, _trace: &Trace, _stats: &mut Stats) -> Vec<Finding> { vec![] }
+    fn level(&self) -> &'static str {
+        "exploration"
+    }
+    fn rule(&self) -> &'static str {
+        "one run = one random command tree (depth <= 4, fan-out <= 5, default leaves incl. anonymous, default branches incl. nested and at the root, numeric-suffixed sibling families, the same name reused in different scopes, extra common commands) and a seeded history of 1-20 messages from 1-3 controllers, each of 1-8 units mixing absolute, relative and common headers, default nodes omitted or spelled, short/long form, random case, suffix 1 present/absent, with undefined headers (7 kinds) and handler errors at any unit and in-flight corruption of predecessor messages; the handler-invocation log (which handler, event/query form) and -113 results are compared with the model resolver. distinct_nontrivial = distinct (tree id, start level depth, header form, units resolved, outcome) tuples"
+    }
+    fn assumptions(&self) -> Vec<String> {
+        vec![
+            "trees respect the documented preconditions: at most one default leaf and one default branch per branch, names visible at one level pairwise non-matching, mnemonics <= 12 characters".into(),
+            "headers are syntactically well formed (ill-formed headers belong to C04)".into(),
+        ]
+    }
+    fn runs(&self, tier: Tier) -> u64 {
+        match tier {
+            Tier::Quick => 40_000,
+            Tier::Thorough => 1_200_000,
+            Tier::Tiny => 40,
+        }
+    }
+    fn required_probes(&self) -> Vec<String> {
+        let v: Vec<&str> = vec![
+            "relative_after_omitted_default_branch",
+            "relative_after_unit_ending_on_branch",
+            "common_between_relative_units",
+            "leading_colon_after_deep_unit",
+            "suffix1_elided_in_candidate",
+            "suffix1_elided_in_definition",
+            "nested_default_branches",
+            "named_child_beside_default_leaf",
+            "undefined_header_at_unit_2_or_later",
+            "clean_message_after_corrupted_predecessor",
+            "clean_message_after_failed_predecessor",
+            "anonymous_default_leaf",
+        ];
+        v.into_iter().map(String::from).collect()
+    }
+
+    fn gen(&self, seed: u64, run: u64, _tier: Tier) -> Trace {
+        let mut rng = Rng::new(mix(seed, "C02", run));
+        let mut trng = Rng::new(mix(seed, "C02-tree", run / 16));
+        let depth = *trng.pick(&[2usize, 3, 4]);
+        let fan = *trng.pick(&[2usize, 3, 5]);
+        let commons = trng.usize_below(4);
+        let tree = gen_tree(&mut trng, false, depth, fan, commons);
+        let controllers = *rng.pick(&[1u8, 1, 2, 3]);
+        let cfg = Config {
+            queue: QueueCfg::Vec,
+            controllers,
+            tree,
+        };
+        let mut t = base_trace("C02", seed, run, "history", cfg.clone());
+        let tc = TreeCtx::new(&cfg.tree);
+        if tc.sim_leaves.is_empty() {
+            return t;
+        }
+        let nmsg = *rng.pick(&[1usize, 2, 5, 20]);
+        let nmsg = rng.urange(1, nmsg);
+        let p_undef = *rng.pick(&[0u64, 5, 15]);
+        let p_fail = *rng.pick(&[0u64, 5, 10]);
+        let p_corrupt = *rng.pick(&[0u64, 10, 25]);
+        let p_common = *rng.pick(&[5u64, 20]);
+        let omit = *rng.pick(&[20u64, 50, 80]);
+        let mut uniq = 0u32;
+        let commons: Vec<usize> = tc
+            .sim_leaves
+            .iter()
+            .copied()
+            .filter(|i| tc.leaves[*i].path.len() == 1 && tc.root.children()[tc.leaves[*i].path[0]].name.starts_with('*'))
+            .collect();
+        let non_commons: Vec<usize> = tc.sim_leaves.iter().copied().filter(|i| !commons.contains(i)).collect();
+        for _ in 0..nmsg {
+            let k = *rng.pick(&[1usize, 2, 3, 5, 8]);
+            let k = rng.urange(1, k);
+            let mut units = Vec::new();
+            let mut level: Vec<usize> = Vec::new();
+            for i in 0..k {
+                let use_common = !commons.is_empty() && (non_commons.is_empty() || rng.chance(p_common, 100));
+                let li = if use_common { *rng.pick(&commons) } else { *rng.pick(&non_commons) };
+                let leaf = tc.leaves[li].clone();
+                let (colon, path) = spell_header(&mut rng, &tc, &leaf, &level, i == 0, omit);
+                let query = rng.chance(1, 2);
+                let mut u = Unit {
+                    colon,
+                    path,
+                    query,
+                    ..Default::default()
+                };
+                if query {
+                    uniq += 1;
+                    u.plan.data = vec![Datum::U64(uniq as u64)];
+                }
+                if rng.chance(1, 6) {
+                    // a consumed parameter
+                    let e = crate::msg::gen_elem(&mut rng, &mut uniq, false);
+                    u.params = vec![e];
+                    u.hsep = B::from(" ");
+                    u.plan.pulls = vec![Pull {
+                        req: true,
+                        ty: PullTy::Tok,
+                    }];
+                }
+                if i > 0 && rng.chance(1, 5) {
+                    u.lead = crate::msg::gen_ws(&mut rng, false);
+                }
+                if rng.chance(p_undef, 100) {
+                    if let Some((c, p, _kind)) = gen_undefined_header(&mut rng, &tc, &level, i == 0) {
+                        u.colon = c;
+                        u.path = p;
+                    }
+                } else if rng.chance(p_fail, 100) {
+                    u.plan.fail = Some(PlanFail {
+                        err: gen_err_spec(&mut rng),
+                        phase: Phase::Before,
+                    });
+                }
+                if let Some(l) = level_after(&tc, &level, i == 0, u.colon, &u.path) {
+                    level = l;
+                }
+                units.push(u);
+            }
+            let msg = Msg {
+                units,
+                end: B::from(*rng.pick(&["", "", "\n", " ", ";", "\r\n"])),
+            };
+            let mut corrupt = Vec::new();
+            if rng.chance(p_corrupt, 100) {
+                let bytes = crate::msg::render(&msg);
+                let n = rng.urange(1, 2);
+                corrupt = gen_corruption(&mut rng, &bytes, n, None);
+            }
+            t.steps.push(Step::Send(SendStep {
+                ctl: rng.below(controllers as u64) as u8,
+                fmt: FmtCfg::Vec,
+                msg,
+                corrupt,
+            }));
+        }
+        t
+    }
+
+    fn check(&self, trace: &Trace, stats: &mut Stats) -> Vec<Finding> {
+        let mut h = H02 {
+            prev: Prev::None,
+            tree_id: crate::rng::fnv1a(serde_json::to_string(&trace.config.tree).unwrap().as_bytes()),
+        };
+        let f = drive(trace, stats, &mut h);
+        if trace.run < 3 && stats.samples.is_empty() {
+            let msgs: Vec<String> = trace
+                .steps
+                .iter()
+                .take(6)
+                .map(|s| match s {
+                    Step::Send(x) => describe_msg(x),
+                    other => format!("{:?}", other),
+                })
+                .collect();
+            stats.samples.push(serde_json::to_string(&serde_json::json!({"tree": trace.config.tree.app, "history": msgs})).unwrap());
+        }
+        f
+    }
+}
+
+#[derive(PartialEq)]
+enum Prev {
+    None,
+    Clean,
+    Failed,
+    Corrupted,
+}
+
+struct H02 {
+    prev: Prev,
+    tree_id: u64,
+}
+
+impl StepHandler for H02 {
+    fn on_send(&mut self, world: &mut World, before: &ModelState, i: usize, s: &SendStep, o: &SendObs, stats: &mut Stats, out: &mut Vec<Finding>) {
+        let pred = predict(&world.root, before, s, Reading::Condition);
+        if !pred.structural {
+            self.prev = Prev::Corrupted;
+            return;
+        }
+        // probes from the model's resolution
+        let mut level: Vec<usize> = Vec::new();
+        let mut prev_info: Option<crate::tree::ResolveInfo> = None;
+        let mut prev_common = false;
+        let mut prev_prev_relative = false;
+        for (k, u) in s.msg.units.iter().enumerate() {
+            let (r, info) = resolve_ex(&world.root, &level, k == 0, u.colon, &u.path);
+            let common = u.path[0].starts_with('*');
+            let relative = k > 0 && !u.colon && !common;
+            match &r {
+                Resolved::Leaf { level: l, .. } => {
+                    if relative {
+                        if let Some(pi) = &prev_info {
+                            if pi.implicit_default_branches > 0 {
+                                stats.probe("relative_after_omitted_default_branch");
+                            }
+                            if pi.ended_on_branch {
+                                stats.probe("relative_after_unit_ending_on_branch");
+                            }
+                        }
+                        if prev_common && prev_prev_relative {
+                            stats.probe("common_between_relative_units");
+                        }
+                    }
+                    if u.colon && k > 0 && level.len() >= 2 {
+                        stats.probe("leading_colon_after_deep_unit");
+                    }
+                    if info.suffix1_elided_in_candidate {
+                        stats.probe("suffix1_elided_in_candidate");
+                    }
+                    if info.suffix1_elided_in_definition {
+                        stats.probe("suffix1_elided_in_definition");
+                    }
+                    if info.implicit_default_branches + info.trailing_default_branches >= 2 {
+                        stats.probe("nested_default_branches");
+                    }
+                    if info.named_child_beside_default_leaf {
+                        stats.probe("named_child_beside_default_leaf");
+                    }
+                    stats.state(&[
+                        (self.tree_id & 0xff) as u8,
+                        ((self.tree_id >> 8) & 0xff) as u8,
+                        level.len() as u8,
+                        u.colon as u8,
+                        common as u8,
+                        u.path.len() as u8,
+                        info.implicit_default_branches as u8,
+                        info.ended_on_branch as u8,
+                        u.query as u8,
+                    ]);
+                    if !common {
+                        prev_prev_relative = relative || k == 0;
+                    }
+                    prev_common = common;
+                    prev_info = Some(info);
+                    level = l.clone();
+                }
+                Resolved::Undefined => {
+                    stats.fault("F4_undefined_header");
+                    if k >= 1 {
+                        stats.probe("undefined_header_at_unit_2_or_later");
+                    }
+                    stats.state(&[(self.tree_id & 0xff) as u8, level.len() as u8, u.colon as u8, 0xEE, k.min(8) as u8]);
+                    break;
+                }
+            }
+        }
+        for u in &s.msg.units {
+            if u.path.iter().any(|p| p.is_empty()) {
+                stats.probe("anonymous_default_leaf");
+            }
+            if u.plan.fail.is_some() {
+                stats.fault("F1_handler_error");
+            }
+        }
+        // anonymous default leaf reached?
+        if pred.calls.iter().any(|c| anon_leaf(&world.cfg.tree, c.h)) {
+            stats.probe("anonymous_default_leaf");
+        }
+        match self.prev {
+            Prev::Corrupted => stats.probe("clean_message_after_corrupted_predecessor"),
+            Prev::Failed => stats.probe("clean_message_after_failed_predecessor"),
+            _ => {}
+        }
+        self.prev = if o.result.is_err() { Prev::Failed } else { Prev::Clean };
+
+        if let Some(df) = cmp_dispatch(&pred, o) {
+            out.push(Finding::new(
+                "C02.dispatch",
+                df.sig,
+                i,
+                format!("message {}: {} (result {:?})", describe_msg(s), df.detail, o.result),
+            ));
+            return;
+        }
+        // -113 exactly for a header that designates no node; otherwise the result the model says
+        if let Some(df) = cmp_result(&pred, o) {
+            let inv = if pred.result == Err(ExpErr::Code(-113)) {
+                "C02.undefined_header"
+            } else {
+                "C02.result"
+            };
+            out.push(Finding::new(inv, df.sig, i, format!("message {}: {}", describe_msg(s), df.detail)));
+        }
+    }
+}
+
+fn anon_leaf(t: &TreeDesc, h: usize) -> bool {
+    fn rec(n: &TNode, h: usize) -> bool {
+        match n {
+            TNode::Leaf { name, h: x, .. } => *x == h && name.is_empty(),
+            TNode::Branch { sub, .. } => sub.iter().any(|c| rec(c, h)),
+        }
+    }
+    t.app.iter().any(|c| rec(c, h))
 }
